@@ -293,6 +293,7 @@ func (s *source) dropNow() {
 type scenario struct {
 	id     int
 	txn    bool
+	pipe   bool // pipelined sending (replay mode "pipeline"): batches are dispatched before the replies of earlier ones are read
 	disk   bool
 	nkeys  int
 	ncmds  int
@@ -517,7 +518,8 @@ func runScenario(sc *scenario, tr *hx.Trace, tr2 *hx.Trace, work string, r *hx.R
 			InputName: "verif", CheckpointName: cpName, CanTransaction: sc.txn, Redis: rcfg, EnableResumeFromBreakPoint: true, TargetDb: -1,
 			BatchCmdCount: 3, BatchTicker: 5 * time.Millisecond, BatchBufferSize: 1 << 20, KeepaliveTicker: 50 * time.Millisecond,
 			UpdateCheckpointTicker: 20 * time.Millisecond, ReplayRdbParallel: par, ReplayRdbEnableRestore: restore, KeyExists: "replace",
-			Stats: config.OutputStats{DisableLog: true},
+			Stats:      config.OutputStats{DisableLog: true},
+			ReplayMode: map[bool]config.ReplayMode{false: config.ReplayModeSync, true: config.ReplayModePipeline}[sc.pipe], ReplayPipeline: sc.pipe,
 		})
 		in := syncer.NewRedisInput(config.RedisConfig{Addresses: []string{ln.Addr().String()}, Type: config.RedisTypeStandalone, Otype: config.RedisTypeStandalone})
 		in.SetOutput(out)
@@ -739,9 +741,30 @@ func runScenario(sc *scenario, tr *hx.Trace, tr2 *hx.Trace, work string, r *hx.R
 			emitCmds(1)
 			src.dropNow()
 		case "targetcrash":
-			tgt.Crash()
-			time.Sleep(2 * time.Millisecond)
-			tgt.Revive()
+			if sc.pipe || r.Bool() {
+				// the target dies with requests on their way to it: what the tool has written to the socket and the target has not
+				// received is lost (a pipelined sender has dispatched those batches already)
+				var gateOn atomic.Bool
+				gateOn.Store(true)
+				gone := make(chan struct{})
+				tgt.Gate = func(connID int, name string, args [][]byte) <-chan struct{} {
+					if gateOn.Load() && (name == "rpush" || name == "multi" || name == "hset") {
+						return gone
+					}
+					return nil
+				}
+				emitCmds(2)
+				time.Sleep(12 * time.Millisecond) // batch ticker 5 ms: the batch is on its way
+				tgt.Crash()
+				gateOn.Store(false)
+				close(gone)
+				time.Sleep(2 * time.Millisecond)
+				tgt.Revive()
+			} else {
+				tgt.Crash()
+				time.Sleep(2 * time.Millisecond)
+				tgt.Revive()
+			}
 		}
 	}
 	emitCmds(sc.ncmds)
@@ -828,7 +851,7 @@ func runScenario(sc *scenario, tr *hx.Trace, tr2 *hx.Trace, work string, r *hx.R
 	if tr2 != nil {
 		emitEvents(tr2, sc, src, tgt, restored)
 	}
-	tr.Emit(map[string]interface{}{"ev": "E2E", "id": sc.id, "txn": sc.txn, "disk": sc.disk, "faults": sc.faults, "ncmds": len(src.keyOf),
+	tr.Emit(map[string]interface{}{"ev": "E2E", "id": sc.id, "pipe": sc.pipe, "txn": sc.txn, "disk": sc.disk, "faults": sc.faults, "ncmds": len(src.keyOf),
 		"initial": ninit, "total": total, "lists": proj, "complete": ok, "ended": ended, "restarts": restarts, "err": es, "psync": obs, "base": src.base})
 }
 
@@ -882,6 +905,7 @@ func main() {
 		}
 		r := hx.NewRng(*seed*32452843 + uint64(s))
 		sc := &scenario{id: s + 1, txn: r.Bool(), disk: r.Bool(), nkeys: 1 + r.Intn(3), ncmds: 6 + r.Intn(18)}
+		sc.pipe = r.Chance(35)
 		for f := 0; f < r.Intn(3); f++ {
 			x := pool[r.Intn(len(pool))]
 			if x == "failover" && sc.txn && r.Bool() {
